@@ -222,8 +222,13 @@ class Ctx:
                 if rel in agg_lines or len(data) > 2_000_000:
                     continue
                 words = set(WORD.findall(data.decode("utf-8", "replace")))
-                others = stems - {stem_of(rel)}
-                if others and len(others & words) >= 0.9 * len(others) and len(others & words) >= 2:
+                # peers: the files in or below its directory with the same extension (an umbrella header lists the headers, an index
+                # module the modules; binding sources or declarations elsewhere in the tree are not its business)
+                ext = os.path.splitext(rel)[1]
+                here = os.path.dirname(rel)
+                under = lambda r2: not here or r2.startswith(here + "/")
+                others = set(stem_of(r2) for r2 in files if under(r2) and os.path.splitext(r2)[1] == ext) - {stem_of(rel)}
+                if len(others) >= 3 and len(others & words) >= 0.8 * len(others):
                     listing_files.append(rel)
                     agg_lines[rel] = data.decode("utf-8", "replace").splitlines()
         texts = None
